@@ -11,6 +11,10 @@ IntLeaves == { I(<<48>>, <<48>>), I(<<45,49>>, <<45,49>>), I(<<43,49,55>>, <<49,
                I(<<50,49,52,55,52,56,51,54,52,56>>, <<50,49,52,55,52,56,51,54,52,56>>),
                I(<<57,50,50,51,51,55,50,48,51,54,56,53,52,55,55,53,56,48,55>>, <<57,50,50,51,51,55,50,48,51,54,56,53,52,55,55,53,56,48,55>>),
                I(<<45,57,50,50,51,51,55,50,48,51,54,56,53,52,55,55,53,56,48,56>>, <<45,57,50,50,51,51,55,50,48,51,54,56,53,52,55,55,53,56,48,56>>) }
+\* numbers spelled with more than 32 characters (leading zeros, trailing zeros): one token each, whatever its length
+Zeros(n) == [i \in 1..n |-> 48]
+LongNumLeaves == { R(Zeros(40) \o <<46,53>>, 5, -1), R(<<49,46,53>> \o Zeros(40), 15, -1), R(<<45>> \o Zeros(36) \o <<46>> \o Zeros(3) \o <<50>>, -2, -4),
+                   I(<<45>> \o Zeros(38) \o <<55>>, <<45,55>>), I(<<43>> \o Zeros(33) \o <<49,55>>, <<49,55>>) }
 RealLeaves == { R(<<46,53>>, 5, -1), R(<<45,46,48,48,50>>, -2, -3), R(<<52,46>>, 4, 0),
                 R(<<43,51,46,49,52>>, 314, -2), R(<<48,46,48>>, 0, 0), R(<<45,48,46,53>>, -5, -1) }
 StrLeaves == { S(<<>>, TRUE), S(<<97>>, TRUE), S(<<40>>, FALSE), S(<<41>>, FALSE), S(<<40,41>>, TRUE),
@@ -24,14 +28,14 @@ StrLeaves == { S(<<>>, TRUE), S(<<97>>, TRUE), S(<<40>>, FALSE), S(<<41>>, FALSE
 NameLeaves == { N(<<>>), N(<<65>>), N(<<65,32,66>>), N(<<35>>), N(<<65,47,66>>), N(<<255>>), N(<<116,114,117,101>>),
                 N(<<70,49>>), N(<<40>>), N(<<37>>), N(<<65,46,66,45,49>>) }
 LeavesFull == {K("null"), K("true"), K("false"), [k |-> "ref", n |-> 12, g |-> 0]}
-              \cup IntLeaves \cup RealLeaves \cup StrLeaves \cup NameLeaves
+              \cup IntLeaves \cup RealLeaves \cup LongNumLeaves \cup StrLeaves \cup NameLeaves
 \* reduced alphabet for the deeper exhaustive runs: one or two of each class
 LeavesSmall == {K("null"), K("true"), [k |-> "ref", n |-> 12, g |-> 0],
                 I(<<45,49>>, <<45,49>>), R(<<46,53>>, 5, -1), S(<<40>>, FALSE), S(<<97,32,98>>, TRUE), S(<<7,55,56>>, TRUE), S(<<97,10,99>>, TRUE),
                 N(<<65,32,66>>), N(<<70,49>>)}
 LeavesMid == {K("null"), K("true"), K("false"), [k |-> "ref", n |-> 12, g |-> 0],
               I(<<45,49>>, <<45,49>>), I(<<57,50,50,51,51,55,50,48,51,54,56,53,52,55,55,53,56,48,55>>, <<57,50,50,51,51,55,50,48,51,54,56,53,52,55,55,53,56,48,55>>),
-              R(<<46,53>>, 5, -1), R(<<52,46>>, 4, 0), S(<<40>>, FALSE), S(<<97,32,98>>, TRUE), S(<<13,10>>, TRUE),
+              R(<<46,53>>, 5, -1), R(<<52,46>>, 4, 0), R(Zeros(40) \o <<46,53>>, 5, -1), I(<<45>> \o Zeros(38) \o <<55>>, <<45,55>>), S(<<40>>, FALSE), S(<<97,32,98>>, TRUE), S(<<13,10>>, TRUE),
               S(<<40,97,40,98,41,99,41>>, TRUE), S(<<169,49,57,57,57>>, TRUE), S(<<1,48,48,49>>, TRUE), S(<<97,10,10,98>>, TRUE), N(<<65,32,66>>), N(<<>>), N(<<70,49>>), N(<<37>>)}
 KeysMC == << <<65>>, <<66,35>>, <<67,32>> >>
 Op(b) == [k |-> "op", b |-> b]
